@@ -19,7 +19,7 @@ class FutexEngine(SmallWordEngine):
             for i in f.real_insts():
                 if i.op in ('load', 'store', 'cmpxchg') and i.x.get('ord', 'na') != 'na':
                     pass
-        SmallWordEngine.__init__(self, mod, 'futex', (0, 1, 2, 3), field=FIELD, files=('nsync_semaphore_futex.c',))
+        SmallWordEngine.__init__(self, mod, 'futex', (0, 1, 2, 3), field=FIELD, files=('nsync_semaphore_futex.c', 'time_rep.c'))
         self.sys = []
     def word_transition(self, st, rec):
         if rec.how == 'cas' and rec.pairs:
@@ -53,7 +53,8 @@ class FutexEngine(SmallWordEngine):
             elif ts == 0:
                 tsinfo = 'NULL'
             absolute = isinstance(op, int) and cmd == self.K['FUTEX_WAIT_BITSET']
-            self.record(Record('futex', inst, st, op=op, fkind=kind, vals=vals, ts=tsinfo, absolute=absolute, entry=self.entry_name),
+            dl = {'sec': st.S.get('deadline.sec'), 'nsec': st.S.get('deadline.nsec')}
+            self.record(Record('futex', inst, st, op=op, fkind=kind, vals=vals, ts=tsinfo, absolute=absolute, entry=self.entry_name, deadline=dl),
                         ('futex', inst.id, st.stack(), repr(vals), repr(tsinfo), tuple(sorted(st.ghost.items(), key=repr))))
             if kind == 'wake':
                 st.ghost[('flag', 'woke')] = 1
